@@ -23,7 +23,7 @@ import (
 var rec = vev.For("C03")
 
 func TestMain(m *testing.M) {
-	rec.SetRule("path strings (a fixed list of ~60 traversal forms plus a rapid grammar over segments {name,.,..,empty,%2e%2e,%2E.,.%2e,..%2f,%2f,%5c,..\\,%00,NUL,runs of ../, computed ways to the canaries} with separators /,//,\\ and scheme://host, //host, query and fragment decorations, plus random bytes) x channel {request-target parsed by net/http, URL.Path assigned directly, Destination header} x method, served from a root that has sibling/parent canary files, a sibling whose name extends the root's name, and content inside. Oracle: everything in the sandbox outside the root is byte-identical afterwards; no response contains a canary name or content token; every multi-status href, sent back verbatim as a request-target with Depth 0, addresses the same resource (kind, length, tag) and, after cleaning, names an entry of that kind and size inside the served directory; unmappable paths (not absolute, NUL) get 4xx. non-trivial = the string contains a traversal token ('..', a percent-encoded dot/slash/backslash, backslash, NUL, or a host prefix) and reached the handler; distinct by (string, channel, method)")
+	rec.SetRule("path strings (a fixed list of ~60 traversal forms plus a rapid grammar over segments {name,.,..,empty,%2e%2e,%2E.,.%2e,..%2f,%2f,%5c,..\\,%00,NUL,runs of ../, computed ways to the canaries} with separators /,//,\\ and scheme://host, //host, query and fragment decorations, plus random bytes) x channel {request-target parsed by net/http, URL.Path assigned directly, Destination header} x method, served - in half of the generated cases after a history of 1-3 ordinary requests that reshape the tree (incl. deleting the root collection) - from a root that has sibling/parent canary files, a sibling whose name extends the root's name, and content inside. Oracle: everything in the sandbox outside the root is byte-identical afterwards; no response contains a canary name or content token; every multi-status href, sent back verbatim as a request-target with Depth 0, addresses the same resource (kind, length, tag) and, after cleaning, names an entry of that kind and size inside the served directory; unmappable paths (not absolute, NUL) get 4xx. non-trivial = the string contains a traversal token ('..', a percent-encoded dot/slash/backslash, backslash, NUL, or a host prefix) and reached the handler; distinct by (string, channel, method)")
 	rec.Assume("reads outside the root are observed through canary tokens in responses (a read leaving no trace in any response is invisible)", "symbolic links inside the served directory are not generated", "DELETE of the root collection may remove the served directory itself; only its presence is ignored in the outside snapshot")
 	vev.Main(m)
 }
@@ -33,6 +33,37 @@ type Case struct {
 	Channel string `json:"channel"` // target | urlpath | destination
 	Method  string `json:"method"`
 	Depth   string `json:"depth,omitempty"`
+	Prior   []int  `json:"prior,omitempty"` // indices into priorOps: a benign history served before the probe
+}
+
+// priorOps: ordinary requests on ordinary names that reshape the served tree (files where collections were, a
+// vanished root, moved subtrees) before the hostile request arrives.
+var priorOps = []struct{ method, path, dest string }{
+	{"PUT", "/new.txt", ""}, {"MKCOL", "/nd", ""}, {"DELETE", "/d", ""}, {"DELETE", "/f", ""}, {"MOVE", "/d", "/moved"},
+	{"COPY", "/f", "/d/f2"}, {"PUT", "/d", ""}, {"DELETE", "/", ""}, {"MOVE", "/f", "/d/sub/f"}, {"MKCOL", "/d/sub/deeper", ""},
+	{"MOVE", "/d", "/f"}, {"COPY", "/d", "/a b"},
+}
+
+func (s *sandbox) applyPrior(c Case) {
+	for _, i := range c.Prior {
+		if i < 0 || i >= len(priorOps) {
+			continue
+		}
+		op := priorOps[i]
+		var b strings.Builder
+		fmt.Fprintf(&b, "%s %s HTTP/1.1\r\nHost: dav.example\r\n", op.method, op.path)
+		if op.dest != "" {
+			fmt.Fprintf(&b, "Destination: %s\r\n", cfs.EscapePath(op.dest))
+		}
+		body := ""
+		if op.method == "PUT" {
+			body = "prior"
+		}
+		fmt.Fprintf(&b, "Content-Length: %d\r\n\r\n%s", len(body), body)
+		if req, err := http.ReadRequest(bufio.NewReader(strings.NewReader(b.String()))); err == nil {
+			cfs.Serve(s.srv.H, req)
+		}
+	}
 }
 
 type sandbox struct {
@@ -180,6 +211,7 @@ func evaluate(t testing.TB, s *sandbox, c Case) vev.Outcome {
 		return vev.Outcome{}
 	}
 	cls := vev.Sig(c.Channel, c.Method)
+	s.applyPrior(c)
 	resp := cfs.Serve(s.srv.H, req)
 	dev := func(kind, f string, a ...any) vev.Outcome {
 		return vev.Outcome{Sig: vev.Sig(cls, kind), Msg: fmt.Sprintf("%s %q via %s answered %d: ", c.Method, string(c.Str), c.Channel, resp.Status) + fmt.Sprintf(f, a...)}
@@ -273,6 +305,9 @@ func run(t *testing.T, rt *rapid.T, s *sandbox, c Case, engine string) {
 	_, reached := build(c)
 	key := mustJSON(c)
 	label := engine + "/" + c.Channel
+	if len(c.Prior) > 0 {
+		label += "/after-history"
+	}
 	if !reached {
 		label += "/parser-refused"
 	}
@@ -395,6 +430,9 @@ func TestGrammar(t *testing.T) {
 		c := Case{Str: vev.B(genString(s).Draw(rt, "str")), Method: m.m, Depth: m.depth, Channel: rapid.SampledFrom([]string{"target", "urlpath", "urlpath", "destination"}).Draw(rt, "channel")}
 		if c.Channel == "destination" {
 			c.Method = rapid.SampledFrom([]string{"COPY", "MOVE"}).Draw(rt, "cm")
+		}
+		if rapid.Bool().Draw(rt, "withprior") {
+			c.Prior = rapid.SliceOfN(rapid.IntRange(0, len(priorOps)-1), 1, 3).Draw(rt, "prior")
 		}
 		run(t, rt, s, c, "grammar")
 	})
